@@ -1096,6 +1096,7 @@ package hashgraph
 //@   requires s != nil && s.coupled()
 //@   modifies nothing
 //@   ensures[notfound] ret1 != nil ==> common.IsStore(ret1, common.KeyNotFound)
+//@   ensures[cached]   (ret1 == nil) == __in(interface{}(index), common.G_m(s.blockCache))
 
 //@ func (s *InmemStore) SetBlock(block *Block) error
 //@   implements Store.SetBlock
@@ -1190,6 +1191,7 @@ package hashgraph
 //@   ensures[hit-view] ret1 == nil ==> ret0 != nil && __in(key, G_events(s)) && ret0 == G_events(s)[key]
 //@   ensures[miss]     !__in(key, G_events(s)) ==> ret1 != nil
 //@   ensures[err]      ret1 != nil ==> ret0 == nil && common.IsStore(ret1, common.KeyNotFound)
+//@   ensures[cached]   (ret1 == nil) == __in(interface{}(key), common.G_m(s.eventCache))
 
 //@ func (s *InmemStore) SetEvent(event *Event) error
 //@   ints checked
@@ -1216,3 +1218,205 @@ package hashgraph
 // discharge within the solver budget. What the attempt did establish: Store.SetPeerSet's "earlier rounds unchanged"
 // clause was too strong as first written (a lookup below the first recorded round returns the first set, so
 // recording an even earlier round changes it) - it now holds from the recorded floor up (G_psetFloor).
+
+// ------------------------------------------------------------------------------------------------
+// BadgerStore (C16): write-through / read fall-through between the in-memory store and the database.
+// The database (Badger, the codec, the key formats) is outside the verifier: the db* helpers are TRUSTED to behave
+// as the ghost maps G_db* - a committed write is what a later read decodes to (EvSame/BlockSame/RootSame: the same
+// content in a different object), a transaction commits all of its records or none, and a database error is never a
+// StoreErr. What is proved is the dispatch: a write that succeeds outside maintenance mode is in the database, a
+// refused or failed write leaves the database as it was, a read prefers the live cached object, falls through to
+// the database on any cache error, and reports KeyNotFound only for a key that is in neither.
+//@ ghost field *BadgerStore dbEv gmap[string, *Event]
+//@ ghost field *BadgerStore dbBlocks gmap[int, *Block]
+//@ ghost field *BadgerStore dbRoots gmap[string, *Root]
+//@ ghost field *BadgerStore dbRounds gmap[int, *RoundInfo]
+//@ ghost field *BadgerStore dbFrames gmap[int, *Frame]
+//@ ghost field *BadgerStore dbPE int
+//@ ghost opaque func EvSame(a *Event, b *Event) bool
+//@ ghost opaque func BlockSame(a *Block, b *Block) bool
+//@ ghost opaque func RootSame(a *Root, b *Root) bool
+//@ ghost opaque func IsDbNF(err error) bool
+//@ ghost opaque func DbPEList(v int, participant string, skip int) []string
+//@ ghost opaque func DbPEListErr(v int, participant string, skip int) error
+//@ ghost opaque func DbPEItem(v int, participant string, index int) string
+//@ ghost opaque func DbPEItemErr(v int, participant string, index int) error
+//@ ghost func (s *BadgerStore) ok() bool { return s.inmemStore != nil && s.inmemStore.coupled() }
+
+//@ func isDBKeyNotFound(err error) bool
+//@   trusted compares the error text with badger.ErrKeyNotFound's; IsDbNF is that test
+//@   modifies nothing
+//@   ensures[def] ret0 == IsDbNF(err) && (ret0 ==> err != nil)
+
+//@ func mapError(err error, name, key string) error
+//@   modifies nothing
+//@   ensures[nil]   err == nil ==> ret0 == nil
+//@   ensures[nf]    err != nil && IsDbNF(err) ==> common.IsStore(ret0, common.KeyNotFound)
+//@   ensures[other] err != nil && !IsDbNF(err) ==> ret0 == err
+
+//@ func (s *BadgerStore) dbGetEvent(key string) (*Event, error)
+//@   trusted Badger read + Event.UnmarshalDB: a committed record decodes to the content that was written; errors are Badger's or the codec's
+//@   requires s != nil
+//@   modifies nothing
+//@   ensures[hit]  ret1 == nil ==> ret0 != nil && __in(key, G_dbEv(s)) && EvSame(ret0, G_dbEv(s)[key])
+//@   ensures[nf]   ret1 != nil && IsDbNF(ret1) ==> !__in(key, G_dbEv(s))
+//@   ensures[err]  ret1 != nil ==> ret0 == nil && !common.IsStore(ret1, common.KeyNotFound)
+
+//@ func (s *BadgerStore) dbSetEvents(events []*Event) error
+//@   trusted one Badger transaction (all records or none): event record, plus topological and participant index records for a new event
+//@   requires s != nil && (forall k int :: 0 <= k && k < len(events) ==> events[k] != nil)
+//@   modifies G_dbEv(s), G_dbPE(s)
+//@   ensures[one]  ret0 == nil && len(events) == 1 ==> __eq(G_dbEv(s), __upd(old(G_dbEv(s)), HexOf(events[0]), events[0]))
+//@   ensures[fail] ret0 != nil ==> __eq(G_dbEv(s), old(G_dbEv(s))) && G_dbPE(s) == old(G_dbPE(s))
+
+//@ func (s *BadgerStore) GetEvent(key string) (*Event, error)
+//@   requires s != nil && s.ok()
+//@   modifies nothing
+//@   ensures[cache-first] __in(interface{}(key), common.G_m(s.inmemStore.eventCache)) ==> ret1 == nil && ret0 == G_events(s.inmemStore)[key]
+//@   ensures[value]       ret1 == nil ==> ret0 != nil && ((__in(key, G_events(s.inmemStore)) && ret0 == G_events(s.inmemStore)[key]) || (__in(key, G_dbEv(s)) && EvSame(ret0, G_dbEv(s)[key])))
+//@   ensures[notfound]    common.IsStore(ret1, common.KeyNotFound) ==> !__in(interface{}(key), common.G_m(s.inmemStore.eventCache)) && !__in(key, G_dbEv(s))
+//@   ensures[err]         ret1 != nil ==> ret0 == nil
+
+//@ func (s *BadgerStore) SetEvent(event *Event) error
+//@   ints checked
+//@   requires s != nil && s.ok() && event != nil && event.Body.Index >= 0 && event.Body.Index < 4611686018427387904
+//@   modifies common.G_m(s.inmemStore.eventCache), any common.RollingIndex.items, any common.RollingIndex.lastIndex, G_events(s.inmemStore), G_dbEv(s), G_dbPE(s)
+//@   ensures[write-through] ret0 == nil && !s.maintenanceMode ==> __eq(G_dbEv(s), __upd(old(G_dbEv(s)), HexOf(event), event))
+//@   ensures[cache]         ret0 == nil ==> __eq(G_events(s.inmemStore), __upd(old(G_events(s.inmemStore)), HexOf(event), event))
+//@   ensures[maintenance]   s.maintenanceMode ==> __eq(G_dbEv(s), old(G_dbEv(s)))
+//@   ensures[failed]        ret0 != nil ==> __eq(G_dbEv(s), old(G_dbEv(s)))
+//@   ensures[ok]            s.ok()
+
+//@ func (s *InmemStore) GetRoot(participant string) (*Root, error)
+//@   requires s != nil
+//@   modifies nothing
+//@   ensures[hit]  __in(participant, s.roots) ==> ret1 == nil && ret0 == s.roots[participant]
+//@   ensures[miss] !__in(participant, s.roots) ==> ret0 == nil && common.IsStore(ret1, common.KeyNotFound)
+
+//@ func (s *InmemStore) ParticipantEvents(participant string, skip int) ([]string, error)
+//@   ints checked
+//@   requires s != nil && s.participantEventsCache != nil && s.participantEventsCache.wf()
+//@   modifies nothing
+//@   ensures[unknown] !s.participantEventsCache.known(participant) ==> common.IsStore(ret1, common.UnknownParticipant)
+//@   ensures[toolate] s.participantEventsCache.known(participant) && skip <= s.participantEventsCache.idx(participant).Last() && skip+1 < s.participantEventsCache.idx(participant).Oldest() ==> common.IsStore(ret1, common.TooLate)
+//@   ensures[suffix]  s.participantEventsCache.known(participant) && skip <= s.participantEventsCache.idx(participant).Last() && skip+1 >= s.participantEventsCache.idx(participant).Oldest() ==> ret1 == nil && len(ret0) == s.participantEventsCache.idx(participant).Last() - skip && (forall k int :: 0 <= k && k < len(ret0) ==> interface{}(ret0[k]) == s.participantEventsCache.idx(participant).Items()[skip+1+k-s.participantEventsCache.idx(participant).Oldest()])
+//@   ensures[ahead]   s.participantEventsCache.known(participant) && skip > s.participantEventsCache.idx(participant).Last() ==> ret1 == nil && len(ret0) == 0
+
+//@ func (s *InmemStore) ParticipantEvent(participant string, index int) (string, error)
+//@   ints checked
+//@   requires s != nil && s.participantEventsCache != nil && s.participantEventsCache.wf()
+//@   modifies nothing
+//@   ensures[unknown]  !s.participantEventsCache.known(participant) ==> common.IsStore(ret1, common.UnknownParticipant)
+//@   ensures[toolate]  s.participantEventsCache.known(participant) && index < s.participantEventsCache.idx(participant).Oldest() ==> common.IsStore(ret1, common.TooLate)
+//@   ensures[notfound] s.participantEventsCache.known(participant) && index > s.participantEventsCache.idx(participant).Last() ==> common.IsStore(ret1, common.KeyNotFound)
+//@   ensures[hit]      s.participantEventsCache.known(participant) && s.participantEventsCache.idx(participant).Oldest() <= index && index <= s.participantEventsCache.idx(participant).Last() ==> ret1 == nil && interface{}(ret0) == s.participantEventsCache.idx(participant).Items()[index-s.participantEventsCache.idx(participant).Oldest()]
+
+//@ func (s *BadgerStore) dbGetBlock(index int) (*Block, error)
+//@   trusted Badger read + Block.Unmarshal: a committed record decodes to the content that was written; errors are Badger's or the codec's
+//@   requires s != nil
+//@   modifies nothing
+//@   ensures[hit]  ret1 == nil ==> ret0 != nil && __in(index, G_dbBlocks(s)) && BlockSame(ret0, G_dbBlocks(s)[index])
+//@   ensures[nf]   ret1 != nil && IsDbNF(ret1) ==> !__in(index, G_dbBlocks(s))
+//@   ensures[err]  ret1 != nil ==> ret0 == nil && !common.IsStore(ret1, common.KeyNotFound)
+
+//@ func (s *BadgerStore) dbSetBlock(block *Block) error
+//@   trusted one Badger transaction
+//@   requires s != nil && block != nil
+//@   modifies G_dbBlocks(s)
+//@   ensures[set]  ret0 == nil ==> __eq(G_dbBlocks(s), __upd(old(G_dbBlocks(s)), block.Body.Index, block))
+//@   ensures[fail] ret0 != nil ==> __eq(G_dbBlocks(s), old(G_dbBlocks(s)))
+
+//@ func (s *BadgerStore) GetBlock(rr int) (*Block, error)
+//@   requires s != nil && s.ok()
+//@   modifies nothing
+//@   ensures[cache-first] __in(interface{}(rr), common.G_m(s.inmemStore.blockCache)) ==> ret1 == nil && ret0 == G_blocks(s.inmemStore)[rr]
+//@   ensures[value]       ret1 == nil ==> ret0 != nil && ((__in(rr, G_blocks(s.inmemStore)) && ret0 == G_blocks(s.inmemStore)[rr]) || (__in(rr, G_dbBlocks(s)) && BlockSame(ret0, G_dbBlocks(s)[rr])))
+//@   ensures[notfound]    common.IsStore(ret1, common.KeyNotFound) ==> !__in(interface{}(rr), common.G_m(s.inmemStore.blockCache)) && !__in(rr, G_dbBlocks(s))
+//@   ensures[err]         ret1 != nil ==> ret0 == nil
+
+//@ func (s *BadgerStore) SetBlock(block *Block) error
+//@   requires s != nil && s.ok() && block != nil && block.Signatures != nil
+//@   modifies common.G_m(s.inmemStore.blockCache), s.inmemStore.lastBlock, G_blocks(s.inmemStore), G_bodies(s.inmemStore), G_lastBlock(s.inmemStore), G_fault(s.inmemStore), G_dbBlocks(s)
+//@   ensures[write-through] ret0 == nil && !s.maintenanceMode ==> __eq(G_dbBlocks(s), __upd(old(G_dbBlocks(s)), block.Body.Index, block))
+//@   ensures[cache]         ret0 == nil ==> __eq(G_blocks(s.inmemStore), __upd(old(G_blocks(s.inmemStore)), block.Body.Index, block))
+//@   ensures[maintenance]   s.maintenanceMode ==> __eq(G_dbBlocks(s), old(G_dbBlocks(s)))
+//@   ensures[failed]        ret0 != nil ==> __eq(G_dbBlocks(s), old(G_dbBlocks(s)))
+//@   ensures[ok]            s.ok()
+
+//@ func (s *BadgerStore) dbGetRoot(participant string) (*Root, error)
+//@   trusted Badger read + Root.Unmarshal; errors are Badger's or the codec's
+//@   requires s != nil
+//@   modifies nothing
+//@   ensures[hit]  ret1 == nil ==> ret0 != nil && __in(participant, G_dbRoots(s)) && RootSame(ret0, G_dbRoots(s)[participant])
+//@   ensures[nf]   ret1 != nil && IsDbNF(ret1) ==> !__in(participant, G_dbRoots(s))
+//@   ensures[err]  ret1 != nil ==> ret0 == nil && !common.IsStore(ret1, common.KeyNotFound)
+
+//@ func (s *BadgerStore) GetRoot(participant string) (*Root, error)
+//@   requires s != nil && s.inmemStore != nil
+//@   modifies nothing
+//@   ensures[cache-first] __in(participant, s.inmemStore.roots) ==> ret1 == nil && ret0 == s.inmemStore.roots[participant]
+//@   ensures[value]       ret1 == nil ==> (__in(participant, s.inmemStore.roots) && ret0 == s.inmemStore.roots[participant]) || (ret0 != nil && __in(participant, G_dbRoots(s)) && RootSame(ret0, G_dbRoots(s)[participant]))
+//@   ensures[notfound]    common.IsStore(ret1, common.KeyNotFound) ==> !__in(participant, s.inmemStore.roots) && !__in(participant, G_dbRoots(s))
+
+//@ func (s *BadgerStore) dbSetRound(index int, round *RoundInfo) error
+//@   trusted one Badger transaction
+//@   requires s != nil && round != nil
+//@   modifies G_dbRounds(s)
+//@   ensures[set]  ret0 == nil ==> __eq(G_dbRounds(s), __upd(old(G_dbRounds(s)), index, round))
+//@   ensures[fail] ret0 != nil ==> __eq(G_dbRounds(s), old(G_dbRounds(s)))
+
+//@ func (s *BadgerStore) SetRound(r int, round *RoundInfo) error
+//@   requires s != nil && s.ok() && round != nil && round.CreatedEvents != nil
+//@   modifies common.G_m(s.inmemStore.roundCache), s.inmemStore.lastRound, G_rounds(s.inmemStore), G_fault(s.inmemStore), G_dbRounds(s)
+//@   ensures[write-through] ret0 == nil && !s.maintenanceMode ==> __eq(G_dbRounds(s), __upd(old(G_dbRounds(s)), r, round))
+//@   ensures[cache]         ret0 == nil ==> __eq(G_rounds(s.inmemStore), __upd(old(G_rounds(s.inmemStore)), r, round))
+//@   ensures[maintenance]   s.maintenanceMode ==> __eq(G_dbRounds(s), old(G_dbRounds(s)))
+//@   ensures[failed]        ret0 != nil ==> __eq(G_dbRounds(s), old(G_dbRounds(s)))
+//@   ensures[ok]            s.ok()
+
+//@ func (s *BadgerStore) dbSetFrame(frame *Frame) error
+//@   trusted one Badger transaction
+//@   requires s != nil && frame != nil
+//@   modifies G_dbFrames(s)
+//@   ensures[set]  ret0 == nil ==> __eq(G_dbFrames(s), __upd(old(G_dbFrames(s)), frame.Round, frame))
+//@   ensures[fail] ret0 != nil ==> __eq(G_dbFrames(s), old(G_dbFrames(s)))
+
+//@ func (s *BadgerStore) SetFrame(frame *Frame) error
+//@   requires s != nil && s.ok() && frame != nil && FrameWF(frame)
+//@   modifies common.G_m(s.inmemStore.frameCache), G_frames(s.inmemStore), G_fault(s.inmemStore), G_dbFrames(s)
+//@   ensures[write-through] ret0 == nil && !s.maintenanceMode ==> __eq(G_dbFrames(s), __upd(old(G_dbFrames(s)), frame.Round, frame))
+//@   ensures[cache]         ret0 == nil ==> __eq(G_frames(s.inmemStore), __upd(old(G_frames(s.inmemStore)), frame.Round, frame))
+//@   ensures[maintenance]   s.maintenanceMode ==> __eq(G_dbFrames(s), old(G_dbFrames(s)))
+//@   ensures[failed]        ret0 != nil ==> __eq(G_dbFrames(s), old(G_dbFrames(s)))
+//@   ensures[ok]            s.ok()
+
+// Per-participant listings: the database's answer is a function of its state (G_dbPE is a version stamp of the
+// participant-index records); the store returns the cache's answer when the cache has one and exactly the
+// database's answer (value and error) otherwise.
+//@ func (s *BadgerStore) dbParticipantEvents(participant string, skip int) ([]string, error)
+//@   trusted Badger read of consecutive participant-index records from skip+1
+//@   requires s != nil
+//@   modifies nothing
+//@   ensures[def] __seqeq(ret0, DbPEList(G_dbPE(s), participant, skip)) && ret1 == DbPEListErr(G_dbPE(s), participant, skip)
+
+//@ func (s *BadgerStore) dbParticipantEvent(participant string, index int) (string, error)
+//@   trusted Badger read of one participant-index record
+//@   requires s != nil
+//@   modifies nothing
+//@   ensures[def] ret0 == DbPEItem(G_dbPE(s), participant, index) && ret1 == DbPEItemErr(G_dbPE(s), participant, index)
+
+//@ func (s *BadgerStore) ParticipantEvents(participant string, skip int) ([]string, error)
+//@   ints checked
+//@   requires s != nil && s.inmemStore != nil && s.inmemStore.participantEventsCache != nil && s.inmemStore.participantEventsCache.wf()
+//@   modifies nothing
+//@   ensures[cache-first] s.inmemStore.participantEventsCache.known(participant) && skip <= s.inmemStore.participantEventsCache.idx(participant).Last() && skip+1 >= s.inmemStore.participantEventsCache.idx(participant).Oldest() ==> ret1 == nil && len(ret0) == s.inmemStore.participantEventsCache.idx(participant).Last() - skip && (forall k int :: 0 <= k && k < len(ret0) ==> interface{}(ret0[k]) == s.inmemStore.participantEventsCache.idx(participant).Items()[skip+1+k-s.inmemStore.participantEventsCache.idx(participant).Oldest()])
+//@   ensures[evicted]     s.inmemStore.participantEventsCache.known(participant) && skip <= s.inmemStore.participantEventsCache.idx(participant).Last() && skip+1 < s.inmemStore.participantEventsCache.idx(participant).Oldest() ==> __seqeq(ret0, DbPEList(G_dbPE(s), participant, skip)) && ret1 == DbPEListErr(G_dbPE(s), participant, skip)
+//@   ensures[unknown]     !s.inmemStore.participantEventsCache.known(participant) ==> __seqeq(ret0, DbPEList(G_dbPE(s), participant, skip)) && ret1 == DbPEListErr(G_dbPE(s), participant, skip)
+
+//@ func (s *BadgerStore) ParticipantEvent(participant string, index int) (string, error)
+//@   ints checked
+//@   requires s != nil && s.inmemStore != nil && s.inmemStore.participantEventsCache != nil && s.inmemStore.participantEventsCache.wf()
+//@   modifies nothing
+//@   ensures[cache-first] s.inmemStore.participantEventsCache.known(participant) && s.inmemStore.participantEventsCache.idx(participant).Oldest() <= index && index <= s.inmemStore.participantEventsCache.idx(participant).Last() ==> ret1 == nil && interface{}(ret0) == s.inmemStore.participantEventsCache.idx(participant).Items()[index-s.inmemStore.participantEventsCache.idx(participant).Oldest()]
+//@   ensures[evicted]     s.inmemStore.participantEventsCache.known(participant) && index < s.inmemStore.participantEventsCache.idx(participant).Oldest() ==> ret0 == DbPEItem(G_dbPE(s), participant, index) && ret1 == DbPEItemErr(G_dbPE(s), participant, index)
+//@   ensures[unknown]     !s.inmemStore.participantEventsCache.known(participant) ==> ret0 == DbPEItem(G_dbPE(s), participant, index) && ret1 == DbPEItemErr(G_dbPE(s), participant, index)
